@@ -625,7 +625,8 @@ func c11ForgedCheckpoints(u0 *univ.Universe, tips0 map[string]int) []c11scn {
 		r.settle(-1, 20*time.Second)
 		return r.judge("forged-checkpoint foreign-state", -1, true, "")
 	}})
-	out = append(out, c11scn{"forged-checkpoint invented-state (block 100 of 101 commits to its parent state with the difficulty set to zero)", func() (string, string) {
+	for _, inv := range []string{"difficulty set to zero", "total work set to the maximum"} {
+	out = append(out, c11scn{"forged-checkpoint invented-state (block 100 of 101 commits to its parent state with the " + inv + ")", func() (string, string) {
 		u, tips := c11Universe()
 		k := tips["T9"]
 		var invented consensus.State
@@ -634,7 +635,11 @@ func c11ForgedCheckpoints(u0 *univ.Universe, tips0 map[string]int) []c11scn {
 				// the peer invents a state - the true parent state with Difficulty = 0 - and commits its block to it
 				p := u.Nodes[k]
 				invented = p.L.State
-				invented.Difficulty = consensus.Work{}
+				if inv == "difficulty set to zero" {
+					invented.Difficulty = consensus.Work{}
+				} else {
+					invented.TotalWork.DecodeFrom(types.NewBufDecoder(bytes.Repeat([]byte{0xFF}, 32)))
+				}
 				b := univ.BuildBlock(p.L, univ.TS(u.Net, p.Height+1, 0), u.As[3].Addr, nil, nil)
 				b.V2.Commitment = invented.Commitment(b.MinerPayouts[0].Address, b.Transactions, b.V2Transactions())
 				univ.Mine(p.HS, &b)
@@ -671,5 +676,6 @@ func c11ForgedCheckpoints(u0 *univ.Universe, tips0 map[string]int) []c11scn {
 		r.settle(-1, 20*time.Second)
 		return r.judge("forged-checkpoint invented-state", -1, true, "")
 	}})
+	}
 	return out
 }
